@@ -14,6 +14,7 @@ from rsx import SliceError  # noqa: E402
 GROUP_CFG = {
     # group: dict(rlimit=.., multiple_errors=..)
     'interp': dict(rlimit=200, multiple_errors=3),
+    'duration': dict(rlimit=400, multiple_errors=5),
 }
 
 KINDS = [
